@@ -2,7 +2,8 @@
 import json, codecs
 from tools import vlib, corr, gen
 
-RULE = ('malformed-input stream: repo corpus + character mutants + truncations + grammar-generated documents + every escape form (\\x \\u \\U incl. out-of-range, unknown, '
+RULE = ('parsel layer: yaml.parser.Parser driven by a stub token source vs Model/ParseL.v (the model of the parser-safety theorems) on all token lists over 26 token variants up to length 2 (thorough 3) between STREAM-START and STREAM-END, grammar-shaped and mutated longer lists and undelimited lists (events, marks, error marks, crash class). '
+        'malformed-input stream: repo corpus + character mutants + truncations + grammar-generated documents + every escape form (\\x \\u \\U incl. out-of-range, unknown, '
         'truncated) + directive forms + nesting up to 200 + byte-level mutants of UTF-8/UTF-16 encodings with and without BOM; delivered as str, bytes, text and byte streams '
         'with random read schedules. Correspondence (outcome class incl. the class of any non-YAML exception must equal the Coq model): reader, scan, parse, compose+construct '
         'layers. Direct on the implementation: scan / parse / compose_all with SafeLoader and CSafeLoader under a 20 s watchdog: result or YAMLError only, error marks inside '
@@ -58,8 +59,10 @@ def run(ctx):
     corr.parse(ctx, 0, texts=texts, project=lambda o: [outcome(o)])
     corr.load(ctx, 0, texts=texts, loaders=('base',), project=lambda o: [outcome(o)], label='compose')
     corr.reader(ctx, ctx.n(1500, 15000), project=lambda o: [o[0].rsplit('| ', 1)[-1].split()[0]] if o else o)
+    # the parser alone on token lists: ties Model/ParseL.v (the model of C03_parser_never_crashes) to parser.py, incl. the crash class on undelimited lists
+    corr.parsel(ctx, corr.token_lists(ctx.rng, ctx.n(2500, 30000), maxlen_exhaustive=ctx.n(2, 3)), label='parsel')
     corr.direct(ctx, 'c03', [[c[0], c[1], c[2]] for c in cs], describe=lambda c: dict(form=c[0], payload=c[1], sizes=(c[2] or [])[:8]))
-    ctx.partial = [dict(theorem='scanner_total / parser_total / composer_total / error_marks_inside', missing='proved only for forward, the UTF-8 decoder, anchor scanning and two parser states; the rest is decided by correspondence of outcome classes and the direct watchdog run')]
+    ctx.partial = [dict(theorem='scanner_total / parser_total / composer_total / error_marks_inside', missing='proved for forward, the UTF-8 decoder, anchor scanning and the whole parser (every state, all token lists: never a crash; termination not proved); the rest is decided by correspondence of outcome classes and the direct watchdog run')]
     ctx.refuted = [dict(theorem='C03_scanner_total_refuted', witness='%YAML 1.<4301 digits> -> ValueError (known finding F-yaml-directive-4300-digits)')]
     return ctx.finish(assumptions=['nesting below the interpreter recursion limit', 'LibYAML is observed, not modelled'])
 
